@@ -125,7 +125,9 @@ Record TF (l : lstate) : Prop := mkTF {
   tf_old : forall ty t k e nd, l_tree l ty = Some t -> In (k, e) t -> zassoc (e_id e) (l_atoms l) = Some nd ->
            n_new nd = false -> exists d, In d (l_dds l) /\ d_tag d = tag_of_type ty /\ d_ref d = e_annref e;
   tf_num : forall ty t, l_tree l ty = Some t -> l_num l ty = zlen t;
-  tf_range : forall ty t k e, l_tree l ty = Some t -> In (k, e) t -> 0 <= e_elmtag e < 65536 /\ 0 <= e_elmref e < 65536
+  tf_range : forall ty t k e, l_tree l ty = Some t -> In (k, e) t -> 0 <= e_elmtag e < 65536 /\ 0 <= e_elmref e < 65536;
+  tf_ftarget : forall ty t k e, l_tree l ty = Some t -> In (k, e) t -> is_data_type ty = false ->
+               (e_elmtag e, e_elmref e) = (tag_of_type ty, e_annref e)
 }.
 
 Lemma hfind_In : forall tag ref dds d, NoDup (map ddkey dds) -> In d dds -> d_tag d = tag -> d_ref d = ref -> hfind tag ref dds = Some d.
@@ -322,7 +324,12 @@ Proof.
       rewrite Htree in Htr. destruct (Z.eq_dec ty' ty) as [->|N].
       + rewrite Ht' in Htr. inversion Htr; subst t0. destruct (Hentry_dd k e Hin) as [d [A [B [C [_ T]]]]].
         pose proof (target_range ty d Hty B (inv_refs _ HI d A)) as R. rewrite <- T in R. exact R.
-      + rewrite Hothers in Htr by assumption. apply (tf_range _ HT ty' t0 k e Htr Hin). }
+      + rewrite Hothers in Htr by assumption. apply (tf_range _ HT ty' t0 k e Htr Hin).
+    - intros ty' t0 k e Htr Hin Hnd. change (upd (l_tree s1) ty (l_tree s1 ty) ty') with (l_tree (set_tree s1 ty (l_tree s1 ty) (zlen els)) ty') in Htr.
+      rewrite Htree in Htr. destruct (Z.eq_dec ty' ty) as [->|N].
+      + rewrite Ht' in Htr. inversion Htr; subst t0. destruct (Hentry_dd k e Hin) as [d [A [B [C [_ T]]]]].
+        rewrite T. unfold target_of. rewrite Hnd. rewrite B, C. reflexivity.
+      + rewrite Hothers in Htr by assumption. apply (tf_ftarget _ HT ty' t0 k e Htr Hin Hnd). }
   split; [split; assumption|]. split; [unfold zlen, FAILV; lia|]. split; [assumption|].
   split.
   { intros [[xt xr] xg xf xtx]. unfold Repr. cbn [a_key a_text a_ttag a_tref fst snd]. rewrite Hd. destruct (Z.eq_dec xt ty) as [E|N].
@@ -486,7 +493,12 @@ Proof.
       + rewrite B in Htr. inversion Htr; subst t0. apply (tins_In _ _ _ _ C) in Hin. destruct Hin as [Hin|Hin].
         * inversion Hin; subst. simpl. exact Htgr.
         * apply (tf_range _ HT1 ty t1 k e Ht1 Hin).
-      + destruct (Hoth ty' N) as [X _]. rewrite X in Htr. apply (tf_range _ HT1 ty' t0 k e Htr Hin). }
+      + destruct (Hoth ty' N) as [X _]. rewrite X in Htr. apply (tf_range _ HT1 ty' t0 k e Htr Hin).
+    - intros ty' t0 k e Htr Hin Hnd. destruct (Z.eq_dec ty' ty) as [->|N].
+      + rewrite B in Htr. inversion Htr; subst t0. apply (tins_In _ _ _ _ C) in Hin. destruct Hin as [Hin|Hin].
+        * inversion Hin; subst. cbn [e_elmtag e_elmref e_annref]. unfold tg. rewrite Hnd. reflexivity.
+        * apply (tf_ftarget _ HT1 ty t1 k e Ht1 Hin Hnd).
+      + destruct (Hoth ty' N) as [X _]. rewrite X in Htr. apply (tf_ftarget _ HT1 ty' t0 k e Htr Hin Hnd). }
   split; [split; assumption|]. split; [congruence|].
   split.
   { intros id0 tr X. apply Hids1 in X. unfold ANid2tagref in *. destruct (zassoc id0 (l_atoms s1)) as [nd|] eqn:Ez; [|discriminate].
@@ -524,4 +536,159 @@ Proof.
       * exists t0, e. destruct (Hoth xt N) as [Z1 _]. rewrite Z1. auto.
     + inversion X; subst. split; [split; [assumption | rewrite MAX_REF_val; lia]|]. right. split; [reflexivity|]. split; [exact Hhf|].
       exists t'. eexists. split; [assumption|]. split; [apply (tins_In _ _ _ _ C); left; reflexivity|]. simpl. rewrite Htg. reflexivity.
+Qed.
+
+Lemma hput_In : forall tag ref data dds d, NoDup (map ddkey dds) ->
+  (In d (hput tag ref data dds) <-> d = mkdd tag ref data \/ (In d dds /\ ddkey d <> (tag, ref))).
+Proof.
+  induction dds as [|x t IH]; simpl; intros d ND.
+  - split; [intros [H|[]]; auto | intros [H|[[] _]]; auto].
+  - inversion ND as [|? ? Hn ND']; subst. destruct (dd_is tag ref x) eqn:E; simpl.
+    + unfold dd_is in E. apply andb_true_iff in E. destruct E as [E1 E2]. apply Z.eqb_eq in E1. apply Z.eqb_eq in E2.
+      assert (Kx : ddkey x = (tag, ref)) by (unfold ddkey; congruence). split.
+      * intros [H|H]; [auto|]. right. split; [auto|]. intros K. apply Hn. rewrite Kx, <- K. apply in_map. assumption.
+      * intros [H|[[H|H] N]]; [auto | subst; contradiction | auto].
+    + assert (Kx : ddkey x <> (tag, ref)).
+      { intros K. unfold ddkey in K. inversion K. unfold dd_is in E. rewrite H0, H1, !Z.eqb_refl in E. discriminate. }
+      rewrite (IH d ND'). split.
+      * intros [H|[H|[H N]]]; [subst; auto | auto | auto].
+      * intros [H|[[H|H] N]]; [auto | auto | auto].
+Qed.
+
+Lemma hput_keys_NoDup : forall tag ref data dds, NoDup (map ddkey dds) -> NoDup (map ddkey (hput tag ref data dds)).
+Proof.
+  intros tag ref data dds ND. unfold ddkey. rewrite hput_order. destruct (hfind tag ref dds) eqn:E; [assumption|].
+  apply NoDup_app_one; [assumption|]. intros X. apply in_map_iff in X. destruct X as [d [K Hd]]. inversion K.
+  apply (hfind_none _ _ _ E d Hd); assumption.
+Qed.
+
+Lemma payload_len4 : forall tag etag eref txt, is_data_tag tag = true -> 4 <= zlen (payload tag etag eref txt).
+Proof. intros. unfold payload, zlen, encode_target. rewrite H. rewrite app_length. cbn [length]. lia. Qed.
+
+Lemma Repr_key_target : forall s ty ref t e y, Good s -> l_tree s ty = Some t -> In (AN_CREATE_KEY ty ref, e) t ->
+  Repr s y -> a_key y = (ty, ref) -> (a_ttag y, a_tref y) = (e_elmtag e, e_elmref e).
+Proof.
+  intros s ty ref t e [[yt yr] yg yf ytx] [HI HT] Ht Hin [_ Hy] Hk. simpl in Hk. inversion Hk; subst yt yr.
+  cbn [a_key a_text a_ttag a_tref fst snd] in *.
+  destruct (inv_tree _ HI ty t Ht) as [_ [Hs _]]. pose proof (tsorted_NoDup _ Hs) as ND.
+  destruct Hy as [[d [D1 [D2 [D3 [D4 D5]]]]]|[_ [_ [t0 [e0 [C1 [C2 C3]]]]]]].
+  - destruct (tf_file _ HT ty t d Ht D1 D2) as [e' [X Y]]. rewrite D3 in X.
+    pose proof (In_tfind _ _ _ ND X) as F1. pose proof (In_tfind _ _ _ ND Hin) as F2. rewrite F1 in F2. inversion F2; subst e'. congruence.
+  - rewrite Ht in C1. inversion C1; subst t0.
+    pose proof (In_tfind _ _ _ ND C2) as F1. pose proof (In_tfind _ _ _ ND Hin) as F2. rewrite F1 in F2. inversion F2; subst e0. assumption.
+Qed.
+
+Lemma ANIwriteann_sim : forall s id ty ref txt s' ok, Good s -> tyok ty ->
+  ANid2tagref s id = Some (tag_of_type ty, ref) -> zlen txt <> 0 ->
+  ANIwriteann s id txt = (s', ok) ->
+  ok = true /\ Good s' /\ (forall id', ANid2tagref s' id' = ANid2tagref s id') /\ l_tree s' = l_tree s /\
+  (exists y, Repr s y /\ a_key y = (ty, ref)) /\
+  (forall x, Repr s' x <->
+     (exists y, Repr s y /\ a_key y = (ty, ref) /\ x = mkann (ty, ref) (a_ttag y) (a_tref y) (Some txt)) \/
+     (Repr s x /\ a_key x <> (ty, ref))).
+Proof.
+  intros s id ty ref txt s' ok HG Hty Hid Htxt H. pose proof HG as [HI HT].
+  destruct (proj1 (ANid2tagref_spec s id ty ref HI) (conj Hid Hty)) as [nd [Ez [K1 [K2 _]]]].
+  destruct (inv_owner _ HI id nd Ez) as [ty2 [t [e [Ht [Hin Heid]]]]].
+  destruct (inv_tree _ HI ty2 t Ht) as [Hty2 [Hs Hent]]. destruct (Hent _ _ Hin) as [Hr [Hk _]].
+  pose proof Hr as Hr'. rewrite MAX_REF_val in Hr'.
+  assert (ty2 = ty) by (rewrite <- K1, Hk; symmetry; apply key_type; unfold tyok in Hty2; lia). subst ty2.
+  assert (Href : e_annref e = ref) by (rewrite <- K2, Hk; symmetry; apply key_ref; unfold tyok in Hty; lia).
+  set (tag := tag_of_type ty) in *.
+  assert (Et : atype2tag (AN_KEY2TYPE (n_key nd)) = Some tag) by (rewrite K1; apply atype2tag_iff; auto).
+  pose proof (In_tfind _ _ _ (tsorted_NoDup _ Hs) Hin) as Hf.
+  assert (Hin' : In (AN_CREATE_KEY ty ref, e) t) by (rewrite <- Href, <- Hk; assumption).
+  unfold ANIwriteann in H. rewrite Ez, Et, K1, Ht, Hf, K2 in H.
+  set (s1 := if n_new nd then set_atoms s (set_node id (mknode (n_key nd) false) (l_atoms s)) (l_next s) else s) in *.
+  assert (Hreuse : negb (n_new nd) && match hfind tag ref (l_dds s) with None => true | Some _ => false end = false).
+  { destruct (n_new nd) eqn:En; [reflexivity|]. simpl.
+    assert (Ez' : zassoc (e_id e) (l_atoms s) = Some nd) by (rewrite Heid; assumption).
+    destruct (tf_old _ HT ty t _ e nd Ht Hin Ez' En) as [d [D1 [D2 D3]]].
+    rewrite (hfind_In tag ref (l_dds s) d (tf_nodup _ HT) D1 D2 (eq_trans D3 Href)). reflexivity. }
+  rewrite Hreuse in H. inversion H; subst s' ok; clear H.
+  assert (Hs1 : l_tree s1 = l_tree s /\ l_num s1 = l_num s /\ l_dds s1 = l_dds s /\ l_next s1 = l_next s) by (unfold s1; destruct (n_new nd); repeat split).
+  destruct Hs1 as [T1 [T2 [T3 T4]]].
+  assert (HI1 : Inv s1) by (unfold s1; destruct (n_new nd); [apply Inv_set_node; assumption | assumption]).
+  assert (Hat1 : forall i, zassoc i (l_atoms s1) = if (i =? id) && n_new nd then Some (mknode (n_key nd) false) else zassoc i (l_atoms s)).
+  { intros i. unfold s1. destruct (n_new nd); simpl; [|rewrite andb_false_r; reflexivity]. rewrite set_node_assoc, andb_true_r.
+    destruct (i =? id) eqn:Ei; [apply Z.eqb_eq in Ei; subst; rewrite Ez|]; reflexivity. }
+  destruct (tf_range _ HT ty t _ e Ht Hin) as [Rg1 Rg2].
+  destruct (payload_roundtrip_lemma tag (e_elmtag e) (e_elmref e) txt Rg1 Rg2) as [Ptxt [Pdec Plen]].
+  set (pl := payload tag (e_elmtag e) (e_elmref e) txt) in *.
+  split; [destruct (zlen txt =? 0) eqn:E; [apply Z.eqb_eq in E; contradiction | reflexivity]|].
+  rewrite T3. set (s2 := set_dds s1 (hput tag ref pl (l_dds s))).
+  assert (Hids : forall id', ANid2tagref s2 id' = ANid2tagref s id').
+  { intros id'. unfold ANid2tagref. unfold s2. cbn [l_atoms set_dds]. rewrite Hat1. destruct ((id' =? id) && n_new nd) eqn:E; [|reflexivity].
+    apply andb_true_iff in E. destruct E as [E _]. apply Z.eqb_eq in E. subst id'. rewrite Ez. reflexivity. }
+  assert (Hdd : forall d, In d (hput tag ref pl (l_dds s)) <-> d = mkdd tag ref pl \/ (In d (l_dds s) /\ ddkey d <> (tag, ref))).
+  { intros d. apply hput_In. apply (tf_nodup _ HT). }
+  assert (HI' : Inv s2).
+  { apply (Inv_same_tables s1); [assumption | repeat split|]. unfold s2. cbn [l_dds set_dds]. intros d Hd. apply Hdd in Hd.
+    destruct Hd as [->|[Hd _]]; [simpl; rewrite <- Href; exact Hr | apply (inv_refs _ HI); assumption]. }
+  assert (Hdt : is_data_tag tag = is_data ty) by (apply is_data_tag_type; assumption).
+  assert (Htarget : target_of ty (mkdd tag ref pl) = (e_elmtag e, e_elmref e)).
+  { unfold target_of. cbn [d_data d_tag d_ref]. rewrite is_data_same. destruct (is_data ty) eqn:Ed.
+    - apply Pdec. rewrite Hdt. reflexivity.
+    - rewrite (tf_ftarget _ HT ty t _ e Ht Hin Ed). rewrite Href. reflexivity. }
+  assert (Hkeyneq : forall ty' r', tyok ty' -> (ty', r') <> (ty, ref) -> (tag_of_type ty', r') <> (tag, ref)).
+  { intros ty' r' T N X. inversion X. apply N. f_equal; [apply tag_of_type_inj; assumption | congruence]. }
+  assert (HT' : TF s2).
+  { constructor; unfold s2; cbn [l_dds l_tree l_num l_atoms set_dds]; rewrite ?T1, ?T2.
+    - apply hput_keys_NoDup. apply (tf_nodup _ HT).
+    - intros d Hd Hdat. apply Hdd in Hd. destruct Hd as [->|[Hd _]]; [apply payload_len4; exact Hdat | apply (tf_len _ HT); assumption].
+    - intros d Hd. apply Hdd in Hd. destruct Hd as [->|[Hd _]]; [exists ty; auto | apply (tf_tags _ HT); assumption].
+    - intros ty' t0 d Htr Hd Hg. apply Hdd in Hd. destruct Hd as [->|[Hd _]].
+      + cbn [d_tag d_ref] in *. destruct (inv_tree _ HI ty' t0 Htr) as [Hty' _].
+        assert (ty' = ty) by (apply tag_of_type_inj; auto). subst ty'. rewrite Ht in Htr. inversion Htr; subst t0.
+        exists e. split; [assumption | symmetry; exact Htarget].
+      + apply (tf_file _ HT ty' t0 d Htr Hd Hg).
+    - intros ty' t0 k e0 nd0 Htr Hin0 Hz Hnew. destruct (inv_tree _ HI ty' t0 Htr) as [Hty' [_ Hent0]].
+      destruct (Hent0 _ _ Hin0) as [R0 [K0 [nd1 [Z1 N1]]]].
+      destruct (Z.eq_dec ty' ty) as [->|N]; [destruct (Z.eq_dec (e_annref e0) ref) as [E|N]|].
+      + exists (mkdd tag ref pl). split; [apply Hdd; left; reflexivity|]. auto.
+      + rewrite Hat1 in Hz. destruct (e_id e0 =? id) eqn:Ei.
+        * apply Z.eqb_eq in Ei. exfalso. rewrite Ei, Ez in Z1. inversion Z1; subst nd1. rewrite Hk in N1. rewrite K0 in N1.
+          rewrite MAX_REF_val in R0. apply key_inj in N1; try (unfold tyok in Hty; lia); try (destruct N1; congruence).
+        * simpl in Hz. destruct (tf_old _ HT ty t0 k e0 nd0 Htr Hin0 Hz Hnew) as [d [D1 [D2 D3]]].
+          exists d. split; [|auto]. apply Hdd. right. split; [assumption|]. unfold ddkey. rewrite D2, D3. intros X. inversion X. contradiction.
+      + rewrite Hat1 in Hz. destruct (e_id e0 =? id) eqn:Ei.
+        * apply Z.eqb_eq in Ei. exfalso. rewrite Ei, Ez in Z1. inversion Z1; subst nd1. rewrite Hk in N1. rewrite K0 in N1.
+          rewrite MAX_REF_val in R0. apply key_inj in N1; try (unfold tyok in Hty, Hty'; lia); try (destruct N1; congruence).
+        * simpl in Hz. destruct (tf_old _ HT ty' t0 k e0 nd0 Htr Hin0 Hz Hnew) as [d [D1 [D2 D3]]].
+          exists d. split; [|auto]. apply Hdd. right. split; [assumption|]. unfold ddkey. rewrite D2, D3.
+          apply Hkeyneq; [assumption|]. intros X. inversion X. contradiction.
+    - apply (tf_num _ HT). - apply (tf_range _ HT). - apply (tf_ftarget _ HT). }
+  split; [split; assumption|]. split; [exact Hids|]. split; [unfold s2; cbn [l_tree set_dds]; exact T1|].
+  assert (Hy : exists y, Repr s y /\ a_key y = (ty, ref)).
+  { destruct (hfind tag ref (l_dds s)) as [d0|] eqn:Eh.
+    - apply hfind_some in Eh. destruct Eh as [D1 [D2 D3]].
+      exists (mkann (ty, ref) (fst (target_of ty d0)) (snd (target_of ty d0)) (Some (payload_text (d_tag d0) (d_data d0)))).
+      split; [|reflexivity]. split; [cbn; split; [assumption | rewrite <- Href; exact Hr]|]. left. exists d0. cbn. repeat split; auto. destruct (target_of ty d0); reflexivity.
+    - exists (mkann (ty, ref) (e_elmtag e) (e_elmref e) None). split; [|reflexivity].
+      split; [cbn; split; [assumption | rewrite <- Href; exact Hr]|]. right. cbn. split; [reflexivity|]. split; [exact Eh|]. exists t, e. auto. }
+  split; [exact Hy|].
+  intros [[xt xr] xg xf xtx]. split.
+  - intros [[T R] X]. cbn [a_key a_text a_ttag a_tref fst snd] in *. unfold s2 in X. cbn [l_dds l_tree set_dds] in X. rewrite T1 in X.
+    destruct X as [[d [D1 [D2 [D3 [D4 D5]]]]]|[X1 [X2 [t0 [e0 [C1 [C2 C3]]]]]]].
+    + apply Hdd in D1. destruct D1 as [->|[D1 Dk]].
+      * cbn [d_tag d_ref d_data] in *. assert (xt = ty) by (apply tag_of_type_inj; auto). subst xt xr.
+        left. destruct Hy as [y [Y1 Y2]]. exists y. split; [assumption|]. split; [assumption|].
+        pose proof (Repr_key_target s ty ref t e y HG Ht Hin' Y1 Y2) as Yt. rewrite Htarget in D5. rewrite Ptxt in D4.
+        inversion D5. inversion Yt. inversion D4. congruence.
+      * right. split.
+        -- split; [cbn; auto|]. left. exists d. cbn. auto.
+        -- cbn. intros X. inversion X. apply Dk. unfold ddkey. rewrite D2, D3, H0, H1. reflexivity.
+    + assert (Nk : (xt, xr) <> (ty, ref)).
+      { intros X. inversion X as [[X0 X00]]. rewrite X0, X00 in X2. fold tag in X2. rewrite (hput_same tag ref pl (l_dds s)) in X2. discriminate. }
+      right. split; [|cbn; exact Nk]. split; [cbn; auto|]. right. cbn. split; [assumption|].
+      split; [rewrite hput_other in X2 by (apply Hkeyneq; assumption); exact X2|]. exists t0, e0. auto.
+  - intros [[y [Y1 [Y2 X]]]|[[[T R] X] Nk]]; cbn [a_key a_text a_ttag a_tref fst snd] in *.
+    + inversion X; subst xt xr xg xf xtx. pose proof (Repr_key_target s ty ref t e y HG Ht Hin' Y1 Y2) as Yt.
+      split; [cbn; split; [assumption | rewrite <- Href; exact Hr]|]. left. exists (mkdd tag ref pl). unfold s2. cbn.
+      split; [apply Hdd; left; reflexivity|]. split; [reflexivity|]. split; [reflexivity|]. split; [rewrite Ptxt; reflexivity|].
+      fold tag. change (mkdd tag ref pl) with (mkdd tag ref pl). rewrite Htarget. assumption.
+    + split; [cbn; auto|]. unfold s2. cbn [l_dds l_tree set_dds]. rewrite T1.
+      destruct X as [[d [D1 [D2 [D3 [D4 D5]]]]]|[X1 [X2 [t0 [e0 [C1 [C2 C3]]]]]]].
+      * left. exists d. split; [|auto]. apply Hdd. right. split; [assumption|]. unfold ddkey. rewrite D2, D3. apply Hkeyneq; assumption.
+      * right. split; [assumption|]. split; [rewrite hput_other by (apply Hkeyneq; assumption); exact X2|]. exists t0, e0. auto.
 Qed.
